@@ -38,6 +38,76 @@ fn fparts(ps: &[VoxelSet]) -> String {
     s
 }
 
+
+fn fill2(code: usize) -> crate::p2::transformation::voxelization::FillMode {
+    use crate::p2::transformation::voxelization::FillMode as FM2;
+    match code {
+        0 => FM2::SurfaceOnly,
+        1 => FM2::FloodFill { detect_cavities: false, detect_self_intersections: false },
+        2 => FM2::FloodFill { detect_cavities: true, detect_self_intersections: false },
+        3 => FM2::FloodFill { detect_cavities: false, detect_self_intersections: true },
+        _ => FM2::FloodFill { detect_cavities: true, detect_self_intersections: true },
+    }
+}
+
+/// boxes and segments/lines for the two cell predicates: unit cells and generic boxes; segments through corners,
+/// along edges, degenerate, tiny, axis-aligned, diagonal, far away
+fn gen_box_seg(r: &mut Rng, lat: bool) -> (f64, f64, f64, f64, f64, f64, f64, f64) {
+    let (cx, cy, hx_, hy_) = if r.bool() { (r.range(0, 6) as f64, r.range(0, 6) as f64, 0.5, 0.5) }
+        else if lat { (r.lattice(16, 2), r.lattice(16, 2), *r.pick(&[0.25, 0.5, 1.0, 1.5]), *r.pick(&[0.25, 0.5, 1.0, 2.0])) }
+        else { (r.uniform(-5.0, 5.0), r.uniform(-5.0, 5.0), r.logu(0.01, 10.0), r.logu(0.01, 10.0)) };
+    let (m0, m1, x0, x1) = (cx - hx_, cy - hy_, cx + hx_, cy + hy_);
+    let corner = |r: &mut Rng| (if r.bool() { m0 } else { x0 }, if r.bool() { m1 } else { x1 });
+    let rnd = |r: &mut Rng| if lat { (cx + r.lattice(12, 2), cy + r.lattice(12, 2)) } else { (cx + r.uniform(-3.0, 3.0) * hx_, cy + r.uniform(-3.0, 3.0) * hy_) };
+    let (a, bb) = match r.below(8) {
+        0 => (rnd(r), rnd(r)),
+        1 => { let c = corner(r); let d = if lat { (*r.pick(&[1.0, -1.0, 0.5, 2.0]), *r.pick(&[1.0, -1.0, 0.5, -2.0])) } else { (r.uniform(-1.0, 1.0), r.uniform(-1.0, 1.0)) };
+               let (s, t) = (r.uniform(0.0, 2.0).floor(), r.uniform(0.0, 3.0).floor()); // through / from / up to a corner
+               ((c.0 - s * d.0, c.1 - s * d.1), (c.0 + t * d.0, c.1 + t * d.1)) }
+        2 => { let p = rnd(r); (p, p) }                                   // degenerate
+        3 => { let p = corner(r); let e = *r.pick(&[1e-16, 5e-17, 2e-16, 1e-15, 1e-12]); (p, (p.0 + e * r.uniform(-1.0, 1.0), p.1 + e * r.uniform(-1.0, 1.0))) }
+        4 => { let y = *r.pick(&[m1, x1, cy, m1 - hy_, x1 + 0.25 * hy_]); ((cx + r.uniform(-3.0, 3.0) * hx_, y), (cx + r.uniform(-3.0, 3.0) * hx_, y)) } // horizontal
+        5 => { let x = *r.pick(&[m0, x0, cx, m0 - hx_, x0 + 0.25 * hx_]); ((x, cy + r.uniform(-3.0, 3.0) * hy_), (x, cy + r.uniform(-3.0, 3.0) * hy_)) } // vertical
+        6 => { let c = corner(r); let e = r.uniform(-1e-9, 1e-9); let d = (r.uniform(-1.0, 1.0), r.uniform(-1.0, 1.0));   // grazing a corner
+               ((c.0 - d.0 + e * d.1, c.1 - d.1 - e * d.0), (c.0 + d.0 + e * d.1, c.1 + d.1 - e * d.0)) }
+        _ => (corner(r), rnd(r)),
+    };
+    (m0, m1, x0, x1, a.0, a.1, bb.0, bb.1)
+}
+
+/// polylines for the 2-D voxelizer: closed simple polygons, open polylines, random segment soups (self-intersecting),
+/// lattice rectangles whose grid coordinates hit half-integers (cell-boundary ties), isolated/degenerate segments
+fn gen_polyline2(r: &mut Rng, lat: bool) -> (Vec<d2::Point<f64>>, Vec<[u32; 2]>) {
+    match r.below(7) {
+        0 | 1 | 2 => { let p = gen_poly2(r, lat); let n = p.len() as u32; (p, (0..n).map(|i| [i, (i + 1) % n]).collect()) }
+        3 => { // open random polyline
+            let n = 2 + r.below(6) as usize;
+            let p: Vec<_> = (0..n).map(|_| d2::gen_p(r, lat, 5.0)).collect();
+            (p, (0..n as u32 - 1).map(|i| [i, i + 1]).collect()) }
+        4 => { // segment soup with repeated / reversed / degenerate edges and unused points
+            let n = 3 + r.below(6) as usize;
+            let p: Vec<_> = (0..n).map(|_| d2::gen_p(r, lat, 4.0)).collect();
+            let m = 1 + r.below(8) as usize;
+            (p, (0..m).map(|_| [r.below(n as u64) as u32, r.below(n as u64) as u32]).collect()) }
+        5 => { // lattice rectangle / nested rectangles: extents chosen so that (res-1)/r is a dyadic and corners fall on ties
+            let w = *r.pick(&[1.0, 2.0, 3.0, 4.0, 7.0, 15.0]); let h = *r.pick(&[1.0, 2.0, 3.0, 3.5, 7.0, 15.0]);
+            let (tx, ty) = (r.lattice(8, 1), r.lattice(8, 1));
+            let mut p = vec![(0.0, 0.0), (w, 0.0), (w, h), (0.0, h)];
+            let mut e: Vec<[u32; 2]> = vec![[0, 1], [1, 2], [2, 3], [3, 0]];
+            if r.bool() && w >= 3.0 && h >= 3.0 { // a hole (cavity)
+                let k = p.len() as u32; p.extend_from_slice(&[(1.0, 1.0), (w - 1.0, 1.0), (w - 1.0, h - 1.0), (1.0, h - 1.0)]);
+                e.extend_from_slice(&[[k, k + 1], [k + 1, k + 2], [k + 2, k + 3], [k + 3, k]]); }
+            if r.bool() { p.push((w * 0.5, h * 0.5)); let k = p.len() as u32 - 1; e.push([k, k]); } // a point primitive
+            (p.iter().map(|(x, y)| d2::Point::new(x + tx, y + ty)).collect(), e) }
+        _ => { // thin long shape: the minor axis gets resolution 2..4
+            let l = r.uniform(5.0, 50.0); let t = r.uniform(0.0, 0.3);
+            let (c, s) = if r.bool() { (1.0, 0.0) } else { (0.0, 1.0) };
+            let raw = [(0.0, 0.0), (l, 0.0), (l, t), (0.0, t)];
+            let p: Vec<_> = raw.iter().map(|(x, y)| d2::Point::new(c * x - s * y, s * x + c * y)).collect();
+            (p, vec![[0, 1], [1, 2], [2, 3], [3, 0]]) }
+    }
+}
+
 pub fn exec(func: &str, a: &mut Args) -> String {
     match func {
         // acd3 <maxhulls> <res> <fill> <concavity> <plane_ds> <hull_ds> <mesh>
@@ -89,6 +159,94 @@ pub fn exec(func: &str, a: &mut Args) -> String {
             let mut s = format!("{} {} {}", d2::fp(&vox.origin), ff(vox.scale), vox.voxels().len());
             for x in vox.voxels() { s.push_str(&format!(" {} {} {}", x.coords.x, x.coords.y, b(x.is_on_surface))); }
             s
+        }
+
+        // segbox2 <mins> <maxs> <a> <b> → 0/1 : query::details::intersection_test_aabb_segment
+        "segbox2" => {
+            use crate::p2::bounding_volume::Aabb as Aabb2;
+            use crate::p2::shape::Segment as Seg2;
+            let mins = d2::p(a); let maxs = d2::p(a); let pa = d2::p(a); let pb = d2::p(a);
+            let r = crate::p2::query::details::intersection_test_aabb_segment(&Aabb2::new(mins, maxs), &Seg2::new(pa, pb));
+            b(r).to_string()
+        }
+        // clipline2 <mins> <maxs> <origin> <dir> → none | t0 t1 : Aabb::clip_line_parameters
+        "clipline2" => {
+            use crate::p2::bounding_volume::Aabb as Aabb2;
+            let mins = d2::p(a); let maxs = d2::p(a); let o = d2::p(a); let d = d2::v(a);
+            match Aabb2::new(mins, maxs).clip_line_parameters(&o, &d) {
+                None => "none".into(),
+                Some((t0, t1)) => format!("{} {}", ff(t0), ff(t1)),
+            }
+        }
+        // vox2grid / vox2set <res> <fm> <keep> <npts> pts <nedges> edges
+        "vox2grid" | "vox2set" => {
+            use crate::p2::transformation::voxelization::{VoxelSet as VS2, VoxelizedVolume as VV2, VoxelValue as V};
+            let res = a.u() as u32; let fm = a.u(); let keep = a.b();
+            let np = a.u(); let pts: Vec<_> = (0..np).map(|_| d2::p(a)).collect();
+            let ne = a.u(); let idx: Vec<[u32; 2]> = (0..ne).map(|_| [a.u() as u32, a.u() as u32]).collect();
+            let fmode = fill2(fm);
+            let vol = VV2::voxelize(&pts, &idx, res, fmode, keep);
+            let [ni, nj] = vol.resolution();
+            if func == "vox2grid" {
+                let mut g = String::with_capacity((ni * nj) as usize + 1);
+                g.push('g');
+                for j in 0..nj { for i in 0..ni {
+                    let c = match vol.voxel(i, j, 0) {
+                        V::PrimitiveUndefined => '0', V::PrimitiveOutsideSurfaceToWalk => '1', V::PrimitiveInsideSurfaceToWalk => '2',
+                        V::PrimitiveOnSurfaceNoWalk => '3', V::PrimitiveOnSurfaceToWalk1 => '4', V::PrimitiveOnSurfaceToWalk2 => '5',
+                        V::PrimitiveOutsideSurface => '6', V::PrimitiveInsideSurface => '7', V::PrimitiveOnSurface => '8' };
+                    g.push(c);
+                } }
+                let scale = vol.scale();
+                let vs: VS2 = vol.into();
+                format!("{} {} {} {} {}", ni, nj, d2::fp(&vs.origin), ff(scale), g)
+            } else {
+                let vs: VS2 = vol.into();
+                let mut s = format!("{} {} {}", d2::fp(&vs.origin), ff(vs.scale), vs.voxels().len());
+                for x in vs.voxels() { s.push_str(&format!(" {} {} {}", x.coords.x, x.coords.y, b(x.is_on_surface))); }
+                // the voxel-to-primitive map is private; it is read back through the public
+                // `compute_primitive_intersections`, one grid row at a time, with query-time primitives that are
+                // horizontal lines at a primitive-specific height inside the row: each (voxel, primitive) entry of the
+                // map then yields one clipped segment whose x-range names the voxel and whose height names the primitive.
+                let nprim = idx.len().max(1);
+                {   // `assert!(!self.intersections.is_empty(), ..)`: an empty map is reported as `nomap`
+                    let far = vec![d2::Point::new(1.0e300, 1.0e300); 2];
+                    let qi: Vec<[u32; 2]> = vec![[0, 1]; nprim];
+                    match std::panic::catch_unwind(std::panic::AssertUnwindSafe(|| vs.compute_primitive_intersections(&far, &qi))) {
+                        Ok(_) => {}
+                        Err(e) => {
+                            let msg = if let Some(m) = e.downcast_ref::<&str>() { m.to_string() } else if let Some(m) = e.downcast_ref::<String>() { m.clone() } else { String::new() };
+                            if msg.contains("voxel-to-primitives-map") { s.push_str(" nomap"); return s; }
+                            panic!("{}", msg);
+                        }
+                    }
+                }
+                let sc = vs.scale; let o = vs.origin;
+                let mut map: std::collections::HashMap<(u32, u32), Vec<usize>> = std::collections::HashMap::new();
+                for j in 0..nj {
+                    let mut qpts = Vec::with_capacity(2 * nprim); let mut qidx = Vec::with_capacity(nprim);
+                    for p in 0..nprim {
+                        let y = o.y + (j as f64 + (-0.45 + 0.9 * (p as f64 + 0.5) / nprim as f64)) * sc;
+                        qpts.push(d2::Point::new(o.x - 2.0 * sc, y)); qpts.push(d2::Point::new(o.x + (ni as f64 + 2.0) * sc, y));
+                        qidx.push([2 * p as u32, 2 * p as u32 + 1]);
+                    }
+                    let out = vs.compute_primitive_intersections(&qpts, &qidx);
+                    for ab in out.chunks(2) {
+                        let mx = 0.5 * (ab[0].x + ab[1].x);
+                        let i = ((mx - o.x) / sc).round() as u32;
+                        let t = (ab[0].y - o.y) / sc - j as f64;
+                        let p = ((t + 0.45) / 0.9 * nprim as f64 - 0.5).round() as usize;
+                        map.entry((i, j)).or_default().push(p);
+                    }
+                }
+                s.push_str(" map");
+                for x in vs.voxels() { if x.is_on_surface {
+                    let l = map.get(&(x.coords.x, x.coords.y)).cloned().unwrap_or_default();
+                    s.push_str(&format!(" {}", l.len()));
+                    for p in l { s.push_str(&format!(" {}", p)); }
+                } }
+                s
+            }
         }
         _ => "nofn".into(),
     }
@@ -286,6 +444,27 @@ pub fn gen(r: &mut Rng, thorough: bool) -> Vec<(String, String)> {
             v.push(("voxelize2".into(), format!("{} {} {} {} {} {}", res2, it % 3, n, poly.iter().map(d2::hp).collect::<Vec<_>>().join(" "), n,
                 (0..n).map(|i| format!("{} {}", i, (i + 1) % n)).collect::<Vec<_>>().join(" "))));
         }
+    }
+    // ---- 2-D voxelizer model (ModelVox.lean) ----
+    let nb = if thorough { 6000 } else { 1200 };
+    for it in 0..nb {
+        let lat = it % 2 == 0;
+        let (m0, m1, x0, x1, ax, ay, bx, by) = gen_box_seg(r, lat);
+        v.push(("segbox2".into(), format!("{} {} {} {} {} {} {} {}", hx(m0), hx(m1), hx(x0), hx(x1), hx(ax), hx(ay), hx(bx), hx(by))));
+        if it % 2 == 0 {
+            v.push(("clipline2".into(), format!("{} {} {} {} {} {} {} {}", hx(m0), hx(m1), hx(x0), hx(x1), hx(ax), hx(ay), hx(bx - ax), hx(by - ay))));
+        }
+    }
+    let nv = if thorough { 900 } else { 150 };
+    for it in 0..nv {
+        let lat = it % 2 == 0;
+        let (p, e) = gen_polyline2(r, lat);
+        let res = *r.pick(if thorough { &[2u32, 3, 4, 5, 8, 13, 16, 21, 32, 50, 70, 100, 128][..] } else { &[2u32, 3, 4, 5, 8, 13, 16, 21, 32, 50, 70][..] });
+        let fm = it % 5; let keep = r.bool();
+        let args = format!("{} {} {} {} {} {} {}", res, fm, b(keep), p.len(), p.iter().map(d2::hp).collect::<Vec<_>>().join(" "), e.len(),
+            e.iter().map(|x| format!("{} {}", x[0], x[1])).collect::<Vec<_>>().join(" "));
+        v.push(("vox2grid".into(), args.clone()));
+        v.push(("vox2set".into(), args));
     }
     v
 }
